@@ -164,14 +164,14 @@ Proof. intros k st x keep Hk. destruct k; simpl; try tauto; split; reflexivity. 
 
 Lemma step_cinv : forall k st o, cinv st -> cinv (fst (impl_step k st o)).
 Proof.
-  intros k st o HC. destruct o as [[s|]|[s|]|s| |s]; simpl; try exact HC;
+  intros k st o HC. destruct o as [[s|]|[s|]|s| |s|s]; simpl; try exact HC;
     try (apply touch_ok; exact HC).
   intros x w H. apply filter_In in H. apply HC. tauto.
 Qed.
 
 Lemma step_ver : forall k st o, c_ver (fst (impl_step k st o)) = fst (spec_step k (c_ver st) o).
 Proof.
-  intros k st o. destruct o as [[s|]|[s|]|s| |s]; simpl; try reflexivity;
+  intros k st o. destruct o as [[s|]|[s|]|s| |s|s]; simpl; try reflexivity;
     destruct k; simpl; try reflexivity;
     destruct (cache_find _ _); reflexivity.
 Qed.
@@ -184,7 +184,7 @@ Lemma history_binding_gen : forall k h st v, cinv st ->
 Proof.
   intros k h. induction h as [|o h IH]; intros st v HC; [reflexivity|].
   simpl. f_equal.
-  - destruct o as [[s|]|[s|]|s| |s]; simpl; unfold obs_bind; simpl; try reflexivity;
+  - destruct o as [[s|]|[s|]|s| |s|s]; simpl; unfold obs_bind; simpl; try reflexivity;
       destruct (touch_ok k st (slot_inst st s) true HC) as [H1 _];
       destruct (touch_ok k st (slot_inst st s) false HC) as [H2 _];
       try rewrite H1; try rewrite H2; rewrite N.eqb_refl; reflexivity.
@@ -206,7 +206,7 @@ Lemma history_refines_other : forall k h st, k <> DPok -> cinv st ->
 Proof.
   intros k h. induction h as [|o h IH]; intros st Hk HC; [reflexivity|].
   simpl. f_equal.
-  - destruct o as [[s|]|[s|]|s| |s]; simpl; unfold obs_beh; simpl; try reflexivity;
+  - destruct o as [[s|]|[s|]|s| |s|s]; simpl; unfold obs_beh; simpl; try reflexivity;
       destruct (touch_ok k st (slot_inst st s) true HC) as [H1 _];
       destruct (touch_ok k st (slot_inst st s) false HC) as [H2 _];
       destruct (touch_ver_other k st (slot_inst st s) true Hk) as [V1 _];
@@ -223,7 +223,7 @@ Lemma history_refines_pok : forall h st touched,
 Proof.
   induction h as [|o h IH]; intros st touched HC HV HT HN; [reflexivity|].
   simpl. f_equal.
-  - destruct o as [[s|]|[s|]|s| |s]; unfold obs_beh; try reflexivity.
+  - destruct o as [[s|]|[s|]|s| |s|s]; unfold obs_beh; try reflexivity.
     + destruct (touch_ok DPok st (slot_inst st s) true HC) as [H1 _].
       destruct (touch_ver st (slot_inst st s) true HV) as [V1 _].
       cbn [impl_step spec_step fst snd o_tag o_ok o_ver].
@@ -236,7 +236,7 @@ Proof.
       cbn [impl_step spec_step fst snd o_tag o_ok o_ver].
       rewrite H1, N.eqb_refl. reflexivity.
   - rewrite <- step_ver.
-    destruct o as [[s|]|[s|]|s| |s].
+    destruct o as [[s|]|[s|]|s| |s|s].
     + apply (IH _ true); [apply step_cinv; exact HC | | discriminate | exact HN].
       cbn [impl_step fst]. apply touch_ver; exact HV.
     + apply (IH _ touched); auto.
@@ -253,6 +253,7 @@ Proof.
       * intros x w H. cbn [impl_step fst c_cache c_ver] in *. apply filter_In in H.
         apply (HV x w). tauto.
       * intros Ht. cbn [impl_step fst c_cache]. rewrite (HT Ht). reflexivity.
+    + apply (IH _ touched); auto.
 Qed.
 
 Theorem history_refines : forall k h,
@@ -512,7 +513,7 @@ Qed.
 
 Lemma step_hinv : forall k st o, hinv st -> hinv (fst (impl_step k st o)).
 Proof.
-  intros k st o H. destruct o as [[s|]|[s|]|s| |s]; try exact H.
+  intros k st o H. destruct o as [[s|]|[s|]|s| |s|s]; try exact H.
   - cbn [impl_step fst]. apply touch_hinv; exact H.
   - cbn [impl_step fst]. apply touch_hinv; exact H.
   - cbn [impl_step fst]. apply touch_hinv; exact H.
@@ -524,7 +525,7 @@ Qed.
 Lemma step_nocache : forall k st o, k <> DPok -> c_cache st = [] ->
   c_cache (fst (impl_step k st o)) = [].
 Proof.
-  intros k st o Hk Hc. destruct o as [[s|]|[s|]|s| |s]; simpl; try exact Hc;
+  intros k st o Hk Hc. destruct o as [[s|]|[s|]|s| |s|s]; simpl; try exact Hc;
     try (destruct k; simpl; tauto).
   rewrite Hc. reflexivity.
 Qed.
@@ -537,7 +538,7 @@ Lemma full_refines_gen : forall k h st, k <> DPok -> cinv st -> hinv st -> c_cac
 Proof.
   intros k h. induction h as [|o h IH]; intros st Hk HC HH Hc; [reflexivity|].
   simpl. f_equal.
-  - destruct o as [[s|]|[s|]|s| |s]; try reflexivity;
+  - destruct o as [[s|]|[s|]|s| |s|s]; try reflexivity;
       try (cbn [impl_step spec_step fst snd];
            destruct (touch_ok k st (slot_inst st s) true HC) as [H1 _];
            destruct (touch_ok k st (slot_inst st s) false HC) as [H2 _];
